@@ -17,6 +17,9 @@ COVER = collections.Counter()
 
 # exchange kinds: (label, config, start, trigger)
 KINDS = [
+    ('ike-init', 'match', 'empty0', ('acquire', 0, 0)),
+    ('ike-init-invalid-ke', 'ke-mismatch', 'empty0', ('acquire', 0, 0)),
+    ('ike-init-cookie', 'match', 'empty0-cookie', ('acquire', 0, 0)),
     ('ike-auth', 'match', 'empty', ('acquire', 0, 0)),
     ('new-child', 'match', 'est', ('acquire', 0, 0)),
     ('rekey-child', 'match', 'est', ('soft',)),
@@ -30,10 +33,12 @@ KINDS = [
 SCEN = []
 for kind in KINDS:
     for role in ('A', 'B'):        # who sends the request; A is the original initiator
-        if kind[0] == 'ike-auth' and role == 'B':
+        if kind[0].startswith('ike-') and role == 'B':
             continue
-        SCEN.append(dict(kind=kind[0], config=kind[1], start=kind[2], trigger=kind[3], role=role,
-                         budget=dict(dup=1 if ck.quick else 2, drop=1, tick=1 if ck.quick else 2, old=1)))
+        b = dict(dup=1 if ck.quick else 2, drop=1, tick=1 if ck.quick else 2, old=1)
+        if kind[0].startswith('ike-init') and ck.quick:
+            b = dict(dup=1, drop=1, tick=0, old=0)        # the initial exchanges are four messages long: keep the quick tier small
+        SCEN.append(dict(kind=kind[0], config=kind[1], start=kind[2], trigger=kind[3], role=role, budget=b))
 if not ck.quick:
     # two triggers (second exchange follows the first: IDs keep counting), fewer faults
     for kind in KINDS[1:7]:
@@ -52,7 +57,13 @@ def _trigger_event(w, role, trig):
 
 def build(sc):
     confs = C.CONFIGS[sc['config']]()
-    if sc['start'] == 'empty':
+    if sc['start'].startswith('empty0'):
+        w = S.new_world(confs)
+        if sc['start'].endswith('cookie'):
+            w.endpoints['B'].controller.cookie_threshold = -1
+        w.sent_log, w.recv_log = [], []
+        w.step(_trigger_event(w, sc['role'], sc['trigger']))
+    elif sc['start'] == 'empty':
         w = S.new_world(confs)
         w.sent_log, w.recv_log = [], []
         w.step(_trigger_event(w, sc['role'], sc['trigger']))
@@ -251,6 +262,8 @@ def m_emit(pre, ev, post):
             yield ('M-emit', 'length:%s' % kind, 'header length %d, datagram %d' % (ln, len(data)))
         if flags & ~0x28:
             yield ('M-emit', 'flags:%s' % kind, 'unexpected flag bits %#x' % flags)
+        if owner is None and exch == 34 and flags & 0x20:
+            continue        # the reply of a responder IKE_SA that was refused and discarded in the same step (COOKIE, INVALID_KE ...)
         if owner is None:
             yield ('M-emit', 'foreign-spi:%s' % kind, 'emitted SPIs %s/%s belong to no IKE_SA of %s' % (
                 spi_i.hex(), spi_r.hex(), x.sender))
@@ -262,8 +275,7 @@ def m_emit(pre, ev, post):
         peer = spi_r if am_initiator else spi_i
         if peer != bytes(owner.peer_spi) and not (exch == 34 and peer == b'\0' * 8):
             yield ('M-emit', 'peer-spi:%s' % kind, 'peer SPI field %s, IKE_SA has %s' % (peer.hex(), owner.peer_spi.hex()))
-        mine = [y for y in post.sent_log if y.sender == x.sender and y.data[0:8] == spi_i
-                and (y.data[8:16] == spi_r or exch == 34) and y.id < x.id]
+        mine = [y for y in post.sent_log if y.sender == x.sender and y.data[0:8] == spi_i and y.id < x.id]
         if flags & 0x20:
             # a response: answers a request with this ID and exchange type that was delivered to us
             reqs = [r for r in post.recv_log if r.dst == x.src and r.data[18] == exch and not r.data[19] & 0x20
@@ -281,6 +293,9 @@ def m_emit(pre, ev, post):
             if exch == 34:
                 if mid != 0:
                     yield ('M-emit', 'init-id', 'IKE_SA_INIT request with ID %d' % mid)
+                if spi_r != b'\0' * 8:
+                    # RFC 7296 3.1: zero in the first message of an initial exchange, including repeats of that message
+                    yield ('M-emit', 'init-request-spi-r', 'IKE_SA_INIT request carries responder SPI %s instead of zero' % spi_r.hex())
             elif mid != top + 1 and not (mid == 0 and top == -1):
                 # (an IKE_SA created by rekey starts again at 0; the initial IKE_SA continues after INIT/AUTH)
                 yield ('M-emit', 'non-consecutive:%s' % kind, 'new request ID %d after highest ID %d' % (mid, top))
